@@ -148,8 +148,8 @@ Print Assumptions C05_encodes_opt_refuted.
    nextTrunNr *)
 Theorem C05_encodes_simulation : forall hs a cs a',
   run_hops a hs = (cs, Some a') ->
-  exists cs' b', run_ops a (adds hs) = (cs', Some b') /\ fsimW a' b'.
-Proof. intros hs a cs a' H. exact (hops_simW hs a a cs a' (fsimW_refl a) H). Qed.
+  exists b', run_ops a (adds hs) = (add_classes hs cs, Some b') /\ fsimW a' b'.
+Proof. exact encodes_simulation. Qed.
 Print Assumptions C05_encodes_simulation.
 
 (* the final Encode of the theorems is the same state transformer *)
